@@ -29,6 +29,9 @@ def _val(v: Any) -> Any:
         pass
     if isinstance(v, uuid.UUID):
         return {'uuid': str(v)}
+    import enum
+    if isinstance(v, enum.Enum):
+        return {'enum': v.name}
     if isinstance(v, BaseException):
         return {'exc': type(v).__name__, 'msg': str(v)[-300:]}
     try:
